@@ -9,7 +9,7 @@ Lines == ndJsonDeserialize(IOEnv.TRACE)
 VARIABLES l, s, cnt
 \* cnt: how often each interesting situation was met (non-vacuity, reported in DONE)
 vars == <<l, s, cnt>>
-Cnt0 == [done |-> 0, periodic |-> 0, onePerInt |-> 0, intArg |-> 0, refused |-> 0]
+Cnt0 == [done |-> 0, periodic |-> 0, onePerInt |-> 0, intArg |-> 0, refused |-> 0, skipped |-> 0]
 
 E == Lines[l]
 Bad(what) == PrintT(<<"BAD", ToJson([line |-> l, id |-> s.id, what |-> what])>>)
@@ -64,13 +64,18 @@ TDead ==
   /\ E.e \in {"Hang", "Crash"} /\ Step
   /\ s' = Die(s) /\ UNCHANGED cnt
   /\ Bad([k |-> "noreturn", ev |-> E.e])
+\* the harness gave up on a case after many hangs in the same run: counted, never silent
+TSkipped ==
+  /\ E.e = "Skipped" /\ Step /\ UNCHANGED s
+  /\ cnt' = [cnt EXCEPT !.skipped = @ + 1]
+  /\ Resting(s) \/ Bad([k |-> "unfinished", pc |-> s.pc])
 TOther ==
-  /\ E.e \notin {"Call", "Clip", "Period", "Pts", "Done", "Throw", "Hang", "Crash"}
+  /\ E.e \notin {"Call", "Clip", "Period", "Pts", "Done", "Throw", "Hang", "Crash", "Skipped"}
   /\ Step /\ UNCHANGED <<s, cnt>>
   /\ E.e = "Meta" \/ Bad([k |-> "event", ev |-> E.e])
 
 Init == l = 1 /\ s = Blank /\ cnt = Cnt0
-Next == l <= Len(Lines) /\ (TCall \/ TClip \/ TPeriod \/ TPts \/ TDone \/ TThrow \/ TDead \/ TOther)
+Next == l <= Len(Lines) /\ (TCall \/ TClip \/ TPeriod \/ TPts \/ TDone \/ TThrow \/ TDead \/ TSkipped \/ TOther)
 Spec == Init /\ [][Next]_vars
 Finished == (l = Len(Lines) + 1) =>
               PrintT(<<"DONE", ToJson([n |-> Len(Lines), open |-> ~Resting(s), cnt |-> cnt])>>)
